@@ -834,7 +834,7 @@ class PauliString(raw_types.Operation, Generic[TKey]):
                 # Raising non-unitary PauliStrings to a power is not supported.
                 return NotImplemented
 
-            if len(self) == 1:
+            if len(self) == 1 and i == 0:
                 q, p = next(iter(self.items()))
                 gates = {
                     pauli_gates.X: common_gates.XPowGate,
